@@ -17,6 +17,10 @@ open Bpmn.Props.C05 Bpmn.Props.EngineCurrent
 #print axioms cohort_after_fork
 #print axioms fresh_view_join_correct
 #print axioms fresh_view_no_early_release
+#print axioms stale_token_in_cohort
+#print axioms stale_token_blocks_join
+#print axioms term_cleans
+#print axioms C05_counterexample_silent_exit
 #print axioms first_activation_view
 #print axioms C05_counterexample_stale_view
 #print axioms Bpmn.Props.EngineSteps.incl_step_holds
